@@ -753,10 +753,8 @@ theorem sim_submit (hm : ModFix frm to) {s t : State} (h : Sim frm to s t) (a : 
     refine { h with now := rfl, depPeriod := rfl, votePeriod := rfl, minDeposit := rfl, bal := hbb, nextProp := rfl,
                     inactiveQ := rfl, activeQ := rfl, props := PropsRel.put h.props _ _ _ rfl, deposits := ?_ }
     dsimp only
-    split
-    · exact h.deposits
-    · rw [h.deposits]
-      exact put_mapKV swS_inj' _root_.id s.deposits (s.nextProp, a) dep
+    rw [h.deposits]
+    exact put_mapKV swS_inj' _root_.id s.deposits (s.nextProp, a) dep
 
 theorem sim_deposit (hm : ModFix frm to) {s t : State} (h : Sim frm to s t) (a : Addr) (id amt : Nat) :
     OptRel (Sim frm to) (deposit s a id amt) (deposit t (sw frm to a) id amt) := by
@@ -819,6 +817,7 @@ def swOp (frm to : Addr) : Op → Op
   | .deposit a id amt => .deposit (sw frm to a) id amt
   | .vote a id => .vote (sw frm to a) id
   | .block dt => .block dt
+  | .setPeriods dp vp => .setPeriods dp vp
   | .migrate f t sg => .migrate (sw frm to f) (sw frm to t) sg
 
 def isMigrate : Op → Bool
@@ -856,6 +855,7 @@ theorem sim_step (hm : ModFix frm to) (c : Cfg) {s t : State} (h : Sim frm to s 
   | deposit a id amt => exact sim_ofOpt h (sim_deposit hm h a id amt)
   | vote a id => exact sim_ofOpt h (sim_vote h a id)
   | block dt => exact ⟨sim_endBlock hm h dt, rfl⟩
+  | setPeriods dp vp => exact ⟨{ h with depPeriod := rfl, votePeriod := rfl }, rfl⟩
   | migrate f t sg => simp [isMigrate] at hop
 
 /-- the answers of a history -/
